@@ -1,11 +1,12 @@
 #!/bin/bash
-# usage: tools/seeded.sh <PROP> <A|B|..> "<checks to run, e.g. C10 C04>" [srcdir]
+# usage: tools/seeded.sh <PROP> <A|B|..> "<checks to run, e.g. C10 C04>" [srcdir] [name under /verif/seeded, default <X>]
 # Confirms a seeded change delivered by a sub-agent (demo exits 0 on the clean tree and 1 with
 # the change; every test passing at HEAD still passes) in a scratch worktree, runs the given
 # quick checks against the changed worktree (VERIF_REPO), stores everything in
 # /verif/seeded/<PROP>-<X>/ and removes the worktree.
 id=$1; x=$2; checks=${3:-$1}; src=${4:-/tmp/seed/out/$id}
-wt=/tmp/seed/cf_${id}_$x; out=/verif/seeded/$id-$x; log=/tmp/seed/results/${id}_$x
+name=${5:-$x}
+wt=/tmp/seed/cf_${id}_$name; out=/verif/seeded/$id-$name; log=/tmp/seed/results/${id}_$name
 mkdir -p $out $log
 git -C /repo worktree remove --force $wt 2>/dev/null
 git -C /repo worktree add --detach -q $wt HEAD || exit 2
@@ -25,6 +26,6 @@ for c in $checks; do
   det="$det $c:rc=$rc"
 done
 cp $src/${x}_patch.diff $out/patch.diff; cp $src/${x}_demo.py $out/demo.py
-echo "RESULT $id-$x demo_clean=$clean demo_mutant=$mut suite[$suite] checks:$det" | tee $log/RESULT
+echo "RESULT $id-$name demo_clean=$clean demo_mutant=$mut suite[$suite] checks:$det" | tee $log/RESULT
 git -C /repo worktree remove --force $wt
 rm -f /verif/evidence/*.scratch.json
